@@ -80,6 +80,7 @@ type Config struct {
 	SolverTimeout time.Duration
 	NondetMapOrder bool
 	Params        map[string]int
+	CrossSolver   string // when set, unsat assertion verdicts are re-checked by this solver
 }
 
 // Engine is one worker: it owns a term context, a solver process and an interpreter heap.
@@ -134,6 +135,7 @@ type Engine struct {
 	summarise   map[string]bool
 	summaries   map[string][]outcome
 	auxSolvers  []*smt.Solver
+	xsolver     *smt.Solver
 	mergedDepth int
 	lastObligations map[string][2]int64
 
@@ -147,6 +149,8 @@ type Stats struct {
 	FnSeen                   map[string]bool
 	IntrinsicsSeen           map[string]bool
 	AssertQueries            int64
+	CrossChecked             int64
+	CrossUnknown             int64
 	BranchQueries            int64
 	ForkSites                map[string]int
 }
@@ -193,6 +197,9 @@ func (e *Engine) Close() {
 	e.solver.Close()
 	for _, s := range e.auxSolvers {
 		s.Close()
+	}
+	if e.xsolver != nil {
+		e.xsolver.Close()
 	}
 }
 
